@@ -1,0 +1,73 @@
+//go:build verif
+// +build verif
+
+package masswallet
+
+import (
+	"time"
+
+	"github.com/massnetorg/mass-core/wire"
+	"massnet.org/mass-wallet/masswallet/txmgr"
+)
+
+// Verification hooks (build tag "verif"). They only call existing unexported code; nothing in
+// the production build references this file.
+
+// VerifHandler returns the wallet's notification handler.
+func (w *WalletManager) VerifHandler() *NtfnsHandler { return w.ntfnsHandler }
+
+// VerifProcessBlock runs the handler's block step (what handle() does for one queued block).
+func (h *NtfnsHandler) VerifProcessBlock(b *wire.MsgBlock) error { return h.processConnectedBlock(b) }
+
+// VerifProcessTx runs the handler's mempool-transaction step.
+func (h *NtfnsHandler) VerifProcessTx(tx *wire.MsgTx) error { return h.proccessReceivedTx(tx) }
+
+// VerifStartWorkerOnly starts the real background worker goroutine alone; the caller then plays
+// the handler's select loop through VerifProcessBlock / VerifProcessTx / VerifServeSuspend.
+func (h *NtfnsHandler) VerifStartWorkerOnly() {
+	h.quitWg.Add(1)
+	go worker(h)
+}
+
+// VerifServeSuspend is the `case <-h.sigSuspend: <-h.sigResume` arm of handle(): it lets the
+// worker run exactly one suspended section. It reports false if no section started within wait.
+func (h *NtfnsHandler) VerifServeSuspend(wait time.Duration) bool {
+	select {
+	case <-h.sigSuspend:
+		<-h.sigResume
+		return true
+	case <-time.After(wait):
+		return false
+	}
+}
+
+// VerifWorkerReady reports whether the worker has created its task queue.
+func (h *NtfnsHandler) VerifWorkerReady() bool { return h.taskChan != nil }
+
+// VerifStopWorker asks the goroutines to quit and waits for them (without closing the db).
+// It reports false if they did not finish within wait.
+func (h *NtfnsHandler) VerifStopWorker(wait time.Duration) bool {
+	close(h.quit)
+	done := make(chan struct{})
+	go func() { h.quitWg.Wait(); close(done) }()
+	select {
+	case <-done:
+		return true
+	case <-time.After(wait):
+		return false
+	}
+}
+
+// VerifBestBlock returns the handler's in-memory copy of the tip.
+func (h *NtfnsHandler) VerifBestBlock() txmgr.BlockMeta {
+	h.memMtx.Lock()
+	defer h.memMtx.Unlock()
+	return h.bestBlock
+}
+
+// VerifMempoolSize returns the number of transactions in the handler's pending set.
+func (h *NtfnsHandler) VerifMempoolSize() int {
+	h.memMtx.Lock()
+	defer h.memMtx.Unlock()
+	return len(h.mempool)
+}
